@@ -4,6 +4,7 @@ set_option linter.unusedVariables false
 namespace Lemmas
 open Gen.Bumping Rs C11
 
+set_option profiler true in
 theorem bump_prepare_up_ok (p : BumpProps) (h : Valid true p) :
     bump_prepare_up p = .ok (Spec.prepareUp p.start p.«end» p.layout.size p.layout.align) := by
   have hdav := debug_assert_valid_eq h
@@ -27,6 +28,88 @@ theorem bump_prepare_up_ok (p : BumpProps) (h : Valid true p) :
   have hE64 : Spec.downAlign e a + a ≤ 2 ^ 64 :=
     add_le_of_dvd_of_lt hE1 (ha.dvd_two_pow_64 ha64) (by omega)
   unfold Spec.prepareUp
-  trace_state
-  sorry
+  simp only []
+  -- the upper bound `2^64 - 16` of both range ends
+  have he16 : 16 ∣ e := by
+    rcases hr with ⟨_, _, _, h⟩ | ⟨_, h, _⟩ <;> exact h
+  have heM : e + 16 ≤ 2 ^ 64 := add_le_of_dvd_of_lt he16 ⟨2 ^ 60, by decide⟩ he64
+  have hsM : s + 16 ≤ 2 ^ 64 := by
+    rcases hr with ⟨_, _, _, _⟩ | ⟨_, _, h⟩
+    · omega
+    · exact add_le_of_dvd_of_lt h ⟨2 ^ 60, by decide⟩ hs64
+  by_cases c1 : (aic && decide (a ≤ m)) = true
+  · simp only [c1, ↓reduceIte]
+    simp only [Bool.and_eq_true, decide_eq_true_eq] at c1
+    have has : a ∣ s := by
+      rcases hr with ⟨_, _, h, _⟩ | ⟨_, _, h⟩
+      · exact Nat.dvd_trans (ha.dvd_of_le hm c1.2) h
+      · exact Nat.dvd_trans (Nat.dvd_trans (ha.dvd_of_le hm c1.2) hm16d) h
+    have hSs := upAlign_eq_self hap has
+    rw [hSs] at hS1 hS2 hS3 hS4 ⊢
+    generalize hE : Spec.downAlign e a = E at *
+    rcases hr with ⟨h1, h2, h3, h4⟩ | ⟨h1, h2, h3⟩
+    · by_cases hcmp : (sz : Int) > ((e - s : Nat) : Int)
+      · have : ¬ (s + sz ≤ e) := by omega
+        rs_simp
+        simp only [hcmp, this, ↓reduceIte]
+      · have : s + sz ≤ e := by omega
+        have := hE4 s has h1
+        rs_simp
+        simp only [hcmp, ‹s + sz ≤ e›, ↓reduceIte]
+    · subst h1
+      have : ¬ (e + 16 + sz ≤ e) := by omega
+      have h5 : (sz : Int) > -16 := by omega
+      rs_simp
+      simp only [this, h5, ↓reduceIte]
+  · simp only [c1, ↓reduceIte]
+    by_cases c2 : (aic && decide (a ≤ 16)) = true
+    · simp only [c2, ↓reduceIte]
+      simp only [Bool.and_eq_true, decide_eq_true_eq] at c2
+      have ha16 : a ∣ 16 := ha.dvd_of_le h16 c2.2
+      rs_simp
+      rcases hr with ⟨h1, h2, h3, h4⟩ | ⟨h1, h2, h3⟩
+      · have hSe : Spec.upAlign s a ≤ e := hS4 e (Nat.dvd_trans ha16 h4) h1
+        have hSE := hE4 _ hS1 hSe
+        generalize hS : Spec.upAlign s a = S at *
+        generalize hE : Spec.downAlign e a = E at *
+        by_cases hcmp : (sz : Int) > ((e - S : Nat) : Int)
+        · have : ¬ (S + sz ≤ e) := by omega
+          rs_simp
+          simp only [hcmp, this, ↓reduceIte]
+        · have : S + sz ≤ e := by omega
+          rs_simp
+          simp only [hcmp, ‹S + sz ≤ e›, ↓reduceIte]
+      · have hSs := upAlign_eq_self hap (Nat.dvd_trans ha16 h3)
+        rw [hSs] at hS1 hS2 hS3 hS4 ⊢
+        subst h1
+        have : ¬ (e + 16 + sz ≤ e) := by omega
+        have h5 : (sz : Int) > -16 := by omega
+        rs_simp
+        simp only [this, h5, ↓reduceIte]
+    · simp only [c2, ↓reduceIte]
+      by_cases hov : s + (a - 1) < 2 ^ 64
+      · rw [up_align_eq_some ha ha64 hs0 hov]
+        simp only [ok_bind]
+        by_cases c3 : Spec.upAlign s a > e
+        · have : ¬ (Spec.upAlign s a + sz ≤ e) := by omega
+          simp only [c3, this, ↓reduceIte, decide_true, pure_eq_ok]
+        · have hSe : Spec.upAlign s a ≤ e := by omega
+          have hSE := hE4 _ hS1 hSe
+          generalize hS : Spec.upAlign s a = S at *
+          generalize hE : Spec.downAlign e a = E at *
+          have hcap : e - S < 2 ^ 63 := by
+            rcases hr with ⟨h1, h2, h3, h4⟩ | ⟨h1, h2, h3⟩ <;> omega
+          simp only [c3, ↓reduceIte, decide_false, Bool.false_eq_true]
+          by_cases hcmp : (sz : Int) > ((e - S : Nat) : Int)
+          · have : ¬ (S + sz ≤ e) := by omega
+            rs_simp
+            simp only [hcmp, this, ↓reduceIte]
+          · have : S + sz ≤ e := by omega
+            rs_simp
+            simp only [hcmp, ‹S + sz ≤ e›, ↓reduceIte]
+      · have hov' : 2 ^ 64 ≤ s + (a - 1) := by omega
+        rw [up_align_eq_none ha hov']
+        have := upAlign_ge_of_overflow ha ha64 hov'
+        have : ¬ (Spec.upAlign s a + sz ≤ e) := by omega
+        simp only [ok_bind, this, ↓reduceIte, pure_eq_ok]
 end Lemmas
